@@ -27,7 +27,7 @@ Theorem C16_pack_history_independent :
     is_dir fs = true -> rdir fs pre -> forallb seg_ok (pre ++ [x]) = true ->
     get fs (pre ++ [x]) = Some (to_node (SDir pmR mtR ks)) ->
     sheight (SDir pmR mtR ks) < fuel -> wfs (SDir pmR mtR ks) ->
-    wf (SDir pmR mtR ks) -> links_ok [] (SDir pmR mtR ks) -> nlfree (SDir pmR mtR ks) ->
+    wf (SDir pmR mtR ks) -> links_ok [] (SDir pmR mtR ks) ->
     load_rules fs opts f1 cwd (join_abs (pre ++ [x])) = (r1, fl1) ->
     load_rules fs opts f2 cwd (join_abs (pre ++ [x])) = (r2, fl2) ->
     (forall rs r, r1 = Some rs \/ r2 = Some rs -> In r rs -> rule_ok r) ->
